@@ -73,12 +73,35 @@ pub fn run(v: &Value) -> Value {
           }
         }
       }
+      "line" => {
+        let i = st[1].as_u64().unwrap() as usize;
+        let k = st[2].as_u64().unwrap() as usize;
+        let src = regs[i].clone();
+        match catch_unwind(AssertUnwindSafe(|| src.lines().nth(k).map(|l| l.clone()))) {
+          Ok(Some(x)) => {
+            // the line borrows nothing from `src` beyond the 'static pieces
+            regs.push(x);
+            steps.push(json!("ok"));
+          }
+          _ => {
+            steps.push(json!("panic"));
+            return json!({"steps": steps, "aborted": true});
+          }
+        }
+      }
       "slice" => {
         let i = st[1].as_u64().unwrap() as usize;
         let a = st[2].as_u64().unwrap() as usize;
         let b = st[3].as_u64().unwrap() as usize;
         let src = regs[i].clone();
-        match catch_unwind(AssertUnwindSafe(|| src.get_byte_slice(a..b))) {
+        let form = st.get(4).and_then(|v| v.as_str()).unwrap_or("range").to_string();
+        match catch_unwind(AssertUnwindSafe(|| match form.as_str() {
+          "to" => src.get_byte_slice(..b),
+          "to_incl" => src.get_byte_slice(..=b),
+          "from" => src.get_byte_slice(a..),
+          "incl" => src.get_byte_slice(a..=b),
+          _ => src.get_byte_slice(a..b),
+        })) {
           Ok(Some(x)) => {
             regs.push(x);
             steps.push(json!("some"));
